@@ -131,6 +131,14 @@ CHECKS.update({
         note=SIM_NOTE + " Physical model: DESIGN.md appendix C/E."),
 })
 
+CHECKS.update({
+    "C20": dict(
+        engine="E3 net + explorer", category="model_checking", design_ref="DESIGN.md section 5 C20",
+        technique="stateless deviation-bounded DFS over task schedules of the real stack: 2..=4 cooperative tasks (two groups' process-data cycles, register read, status, SDO read, SDO write) share one MainDevice with 2/4/16 frame slots; every ready-task poll and every in-flight frame delivery is an explorer choice; each task's result is compared with the task alone, device effects with the tasks run one by one; distinct wire schedules reported",
+        text="With any explored await-level interleaving and frame delivery order, each concurrent task returns exactly what it returns alone, the devices end in the state the tasks produce one by one, all tasks finish, and no response is rejected.",
+        note=SIM_NOTE),
+})
+
 NOT_YET = {
 }
 
